@@ -37,6 +37,17 @@ class Meter:
         self.limit = None
         return self.n
 
+    def arm(self, limit):
+        """Cheap variant for very many short calls: monitoring stays switched on, only the counter is reset."""
+        if not self.active or mon.get_events(TID) == 0:
+            self.start(limit)
+        self.n = 0
+        self.limit = limit
+
+    def disarm(self):
+        self.limit = None
+        return self.n
+
     def run(self, fn, limit=None):
         """-> (result, exception, events)"""
         self.start(limit)
